@@ -36,7 +36,7 @@ MACROS = {
     'string': r'{string1}|{string2}',
     # from CSS2.1
     'invalid': r'{invalid1}|{invalid2}',
-    'url':  r'[\x09\x21\x23-\x26\x28\x2a-\x7E]|{nonascii}|{escape}',
+    'url':  r'[\x09\x21\x23-\x26\x28\x2a-\x5b\x5d-\x7E]|{nonascii}|{escape}',
 
     's': r'\t|\r|\n|\f|\x20',
     'w': r'{s}*',
